@@ -171,7 +171,8 @@ def valid_instance(h, I, bound=None):
                                                   it.dur(o) >= 0, it.machines(o) > 0,
                                                   it.machines(o) < A, it.nmach(o) >= 1)),
                                patterns=[it.op(j, p)])),
-        ("inst-cum", z3.And(it.cumL(0) == 0, forall([j], imp(rng(j, 0, it.J), it.cumL(j + 1) == it.cumL(j) + it.L(j))))),
+        ("inst-cum", z3.And(it.cumL(0) == 0, forall([j], imp(rng(j, 0, it.J), it.cumL(j + 1) == it.cumL(j) + it.L(j)),
+                                                             patterns=[it.cumL(j + 1), it.L(j)]))),
         ("inst-cum-monotone", forall([j, p], imp(z3.And(0 <= j, j <= p, p <= it.J), it.cumL(j) <= it.cumL(p)))),
         ("inst-machines", forall([j, p, q], imp(z3.And(rng(j, 0, it.J), rng(p, 0, it.L(j)),
                                                           rng(q, 0, it.nmach(o))),
@@ -311,9 +312,11 @@ def reach(h, d):
         ("R8-job-ready-0", forall([j], imp(z3.And(rng(j, 0, it.J), D.kj(j) == 0), D.jn(j) == 0),
                                    patterns=[D.jn(j)])),
         ("R9-count-per-machine", z3.And(D.cumS(0) == 0, forall([m], imp(rng(m, 0, D.M),
-                                                                      D.cumS(m + 1) == D.cumS(m) + D.nS(m))))),
+                                                                      D.cumS(m + 1) == D.cumS(m) + D.nS(m)),
+                                                                      patterns=[D.cumS(m + 1), D.nS(m)]))),
         ("R9-count-per-job", z3.And(D.cumK(0) == 0, forall([j], imp(rng(j, 0, it.J),
-                                                                  D.cumK(j + 1) == D.cumK(j) + D.kj(j))))),
+                                                                  D.cumK(j + 1) == D.cumK(j) + D.kj(j)),
+                                                                  patterns=[D.cumK(j + 1), D.kj(j)]))),
         ("R9-count-per-job-monotone", forall([j, p], imp(z3.And(0 <= j, j <= p, p <= it.J), D.cumK(j) <= D.cumK(p)))),
         ("R9-counts-agree", D.cumS(D.M) == D.cumK(it.J)),
         ("R9-deficit-monotone", forall([j, p], imp(z3.And(0 <= j, j <= p, p <= it.J),
